@@ -7,7 +7,7 @@ from .. import pyloops as PL
 
 PID = "C14"
 TITLE = "Procedural generators give valid meshes of the promised shape, all parameters"
-LEAN_MODULES = ["Mouette.Props.C14"]
+LEAN_MODULES = ["Mouette.Props.C14", "Mouette.Props.C14Geom"]
 
 # ------------------------------------------------------------------------------------------------
 # translated fragments
@@ -166,3 +166,377 @@ def translate():
 
     T.write_generated("C14", body + "end Mouette.Generated.C14\n", header="namespace Mouette.Generated.C14\n\n")
     return sites
+
+
+# ------------------------------------------------------------------------------------------------
+# cases
+# ------------------------------------------------------------------------------------------------
+MODELLED = {"unit_grid": (2, 2), "unit_triangle": (2, 1), "torus": (2, 1), "sphere_uv": (2, 0), "cylinder": (1, 1),
+            "ring": (2, 1), "flat_ring": (2, 0), "tetrahedron": (0, 0), "icosahedron": (0, 0), "triangle": (0, 0),
+            "hexahedron": (0, 1), "quad": (0, 1)}
+
+
+def _geo(rng):
+    d = lambda: rng.randint(-24, 24) / 8
+    return {"center": [d(), d(), d()], "radius": rng.choice([0.125, 0.5, 1.0, 2.5, 7.0]),
+            "P": [[d(), d(), d()] for _ in range(8)], "defect": rng.choice([0.0, 0.25, 0.5, 1.0, 2.0, 4.0])}
+
+
+def cases(rng, tier):
+    hi = 7 if tier == "quick" else 16
+    B = (False, True)
+    out = []
+    for a in range(2, hi + 1):
+        for b in range(2, hi + 1):
+            for t in B:
+                out.append({"gen": "unit_grid", "ints": [a, b], "bools": [t, rng.random() < 0.3]})
+            out.append({"gen": "unit_triangle", "ints": [a, b], "bools": [rng.random() < 0.3]})
+    for a in range(3, hi + 1):
+        for b in range(3, hi + 1):
+            for t in B:
+                out.append({"gen": "torus", "ints": [a, b], "bools": [t]})
+    for a in range(1, hi + 1):
+        for b in range(3, hi + 1):
+            out.append({"gen": "sphere_uv", "ints": [a, b], "bools": []})
+    for n in range(3, 3 * hi):
+        for t in B:
+            out.append({"gen": "cylinder", "ints": [n], "bools": [t]})
+    for n in range(3, 2 * hi):
+        for c in (1, 2, 3):
+            for o in B:
+                out.append({"gen": "ring", "ints": [n, c], "bools": [o]})
+            out.append({"gen": "flat_ring", "ints": [n, c], "bools": []})
+    out += [{"gen": "tetrahedron", "ints": [], "bools": [], "volume": v} for v in B]
+    out += [{"gen": "hexahedron", "ints": [], "bools": [t], "colored": c, "volume": v} for t in B for c in B for v in B]
+    out += [{"gen": "quad", "ints": [], "bools": [t]} for t in B]
+    out += [{"gen": "triangle", "ints": [], "bools": []}, {"gen": "icosahedron", "ints": [], "bools": []}]
+    # generators that are not modelled in Lean (depend on subdivision / qhull / dual): oracle battery only
+    out += [{"gen": "axis_aligned_cube", "ints": [], "bools": [t], "colored": c} for t in B for c in B]
+    out += [{"gen": "hexahedron_4pts", "ints": [], "bools": [], "colored": c, "volume": v} for c in B for v in B]
+    out += [{"gen": g, "ints": [], "bools": []} for g in ("octahedron", "dodecahedron", "binding")]
+    out += [{"gen": "icosphere", "ints": [n], "bools": []} for n in range(0, 3 if tier == "quick" else 4)]
+    out += [{"gen": "sphere_fibonacci", "ints": [n], "bools": [True]} for n in ([4, 7, 12, 30, 100] if tier == "quick" else list(range(4, 60)) + [300])]
+    out += [{"gen": "dual_mesh", "ints": [a, b], "bools": []} for a in (3, 4, 5) for b in (3, 5)]
+    out += [{"gen": "chain_of_vertices", "ints": [n], "bools": [l]} for n in (3, 4, 6) for l in B]
+    out += [{"gen": "cylindrify_edges", "ints": [n], "bools": []} for n in (3, 5)]
+    out += [{"gen": "spherify_vertices", "ints": [n], "bools": []} for n in (0, 1)]
+    for c in out:
+        c["geo"] = _geo(rng)
+    return out
+
+
+def model_request(case):
+    g = case["gen"]
+    if g == "binding": return "binding"
+    if g not in MODELLED: return None
+    if case.get("volume"): return None          # volume meshes: faces come from cell completion (C02), not from the table
+    return " ".join([g] + [str(i) for i in case["ints"]] + ["1" if b else "0" for b in case["bools"]])
+
+
+# ------------------------------------------------------------------------------------------------
+# running the implementation
+# ------------------------------------------------------------------------------------------------
+def _run(case):
+    import mouette as M
+    import numpy as np
+    P = M.procedural
+    g, I, Bo, geo = case["gen"], case["ints"], case["bools"], case["geo"]
+    V = lambda p: M.Vec(*p)
+    if g == "unit_grid": return P.unit_grid(I[0], I[1], triangulate=Bo[0], generate_uvs=Bo[1])
+    if g == "unit_triangle": return P.unit_triangle(I[0], I[1], generate_uvs=Bo[0])
+    if g == "torus": return P.torus(I[0], I[1], 4 * geo["radius"], geo["radius"], triangulate=Bo[0])
+    if g == "sphere_uv": return P.sphere_uv(I[0], I[1], V(geo["center"]), geo["radius"])
+    if g == "cylinder": return P.cylinder(V(geo["P"][0]), V(geo["P"][0]) + M.Vec(1., 2., 2.), geo["radius"], I[0], fill_caps=Bo[0])
+    if g == "ring": return P.ring(I[0], geo["defect"], Bo[0], I[1])
+    if g == "flat_ring": return P.flat_ring(I[0], geo["defect"], I[1])
+    if g == "tetrahedron": return P.tetrahedron(*[V(p) for p in _tet_pts(geo)], volume=case["volume"])
+    if g == "hexahedron": return P.hexahedron(*[V(p) for p in _hex_pts(geo)], colored=case["colored"], triangulate=Bo[0], volume=case["volume"])
+    if g == "hexahedron_4pts":
+        q = _hex_pts(geo)
+        return P.hexahedron_4pts(V(q[0]), V(q[1]), V(q[3]), V(q[4]), colored=case["colored"], volume=case["volume"])
+    if g == "axis_aligned_cube": return P.axis_aligned_cube(colored=case["colored"], triangulate=Bo[0])
+    if g == "quad": return P.quad(V(geo["P"][0]), V(geo["P"][1]), V(geo["P"][2]), triangulate=Bo[0])
+    if g == "triangle": return P.triangle(V(geo["P"][0]), V(geo["P"][1]), V(geo["P"][2]))
+    if g == "icosahedron": return P.icosahedron(V(geo["center"]), geo["radius"])
+    if g == "octahedron": return P.octahedron()
+    if g == "dodecahedron": return P.dodecahedron()
+    if g == "icosphere": return P.icosphere(I[0], V(geo["center"]), geo["radius"])
+    if g == "sphere_fibonacci": return P.sphere_fibonacci(I[0], geo["radius"], build_surface=Bo[0])
+    if g == "dual_mesh": return P.dual_mesh(P.torus(I[0], I[1], 2., .5, triangulate=True))
+    if g == "chain_of_vertices":
+        return P.chain_of_vertices(np.array([[float(i), float(i * i), 0.5] for i in range(I[0])]), loop=Bo[0])
+    if g == "cylindrify_edges":
+        pl = P.chain_of_vertices(np.array([[0., 0., 0.], [1., 0., 0.], [1., 1., 0.5]]), loop=False)
+        return P.cylindrify_edges(pl, radius=0.1, N=I[0])
+    if g == "spherify_vertices":
+        pc = M.mesh.from_arrays(np.array([[0., 0., 0.], [3., 0., 0.], [0., 3., 1.]]))
+        return P.spherify_vertices(pc, radius=0.25, n_subdiv=I[0])
+    raise ValueError(g)
+
+
+def _tet_pts(geo):
+    return [[0, 0, 0], [1, 0, 0], [0, 1, 0], [0, 0, 1]] if geo["radius"] == 1.0 else geo["P"][:4]
+
+
+def _hex_pts(geo):
+    o = geo["center"]
+    base = [(0, 0, 0), (1, 0, 0), (1, 1, 0), (0, 1, 0), (0, 0, 1), (1, 0, 1), (1, 1, 1), (0, 1, 1)]
+    s = geo["radius"]
+    return [[o[k] + s * b[k] for k in range(3)] for b in base]
+
+
+def _sides(f):
+    return [(f[i], f[(i + 1) % len(f)]) for i in range(len(f))]
+
+
+def _report(nV, F):
+    """same line format as Mouette.DriveC14.report, computed independently in Python"""
+    dire = [s for f in F for s in _sides(f)]
+    dset = set(dire)
+    flags = [all(0 <= v < nV for f in F for v in f),
+             all(any(v in f for f in F) for v in range(nV)),
+             all(len(f) >= 3 and len(set(f)) == len(f) for f in F),
+             len({tuple(sorted(f)) for f in F}) == len(F),
+             len(dset) == len(dire),
+             all((b, a) in dset for (a, b) in dire)]
+    E = len({(min(a, b), max(a, b)) for a, b in dire})
+    border = sum(1 for (a, b) in dire if (b, a) not in dset)
+    fl = " ".join([str(len(F))] + [" ".join([str(len(f))] + [str(v) for v in f]) for f in F])
+    return f"{nV} ; {fl} ; {' '.join('1' if x else '0' for x in flags)} ; {E} {border} {nV - E + len(F)}"
+
+
+def impl_observe(case):
+    if case["gen"] == "binding":
+        # what actually reaches hexahedron(): observe by calling hexahedron_4pts with each switch alone
+        import mouette as M
+        res = []
+        q = _hex_pts(case["geo"])
+        pts = [M.Vec(*q[0]), M.Vec(*q[1]), M.Vec(*q[3]), M.Vec(*q[4])]
+        m = M.procedural.hexahedron_4pts(*pts, colored=True, volume=False)
+        res.append("colored->" + ("colored" if m.faces.has_attribute("color") else ("triangulate" if len(m.faces[0]) == 3 else "?")))
+        m = M.procedural.hexahedron_4pts(*pts, colored=False, volume=True)
+        res.append("volume->" + ("volume" if type(m).__name__ == "VolumeMesh" else ("triangulate" if len(m.faces[0]) == 3 else "?")))
+        return " ".join(res)
+    try:
+        m = _run(case)
+    except Exception as e:  # noqa
+        return f"err:{type(e).__name__}"
+    F = [[int(v) for v in f] for f in m.faces] if hasattr(m, "faces") else []
+    return _report(len(m.vertices), F)
+
+
+def compare(case, model, impl):
+    if model == impl: return None
+    mp, ip = model.split(" ; "), impl.split(" ; ")
+    if len(ip) != 4: return f"implementation raised {impl} where the translated generator yields a mesh"
+    for name, a, b in zip(["vertex count", "face list", "validity flags", "E/border/chi"], mp, ip):
+        if a != b: return f"{name} differs: translated-source model {a[:120]} vs implementation {b[:120]}"
+    return "differs"
+
+
+# ------------------------------------------------------------------------------------------------
+# oracle: the statement of C14 on the implementation's output
+# ------------------------------------------------------------------------------------------------
+def _expected(case):
+    """(V, F, chi, loops) documented for the generator; None = not fixed by the documentation"""
+    g, I, Bo = case["gen"], case["ints"], case["bools"]
+    if g == "unit_grid": return I[0] * I[1], (I[0] - 1) * (I[1] - 1) * (2 if Bo[0] else 1), 1, 1
+    if g == "unit_triangle":
+        n = min(I)
+        return (n * (n + 1) // 2 if I[0] >= I[1] else None), ((n - 1) ** 2 if I[0] >= I[1] else None), 1, 1
+    if g == "torus": return I[0] * I[1], I[0] * I[1] * (2 if Bo[0] else 1), 0, 0
+    if g == "sphere_uv": return I[0] * I[1] + 2, 2 * I[1] + (I[0] - 1) * I[1], 2, 0
+    if g == "cylinder": return 2 * I[0] + (2 if Bo[0] else 0), 2 * I[0] * (2 if Bo[0] else 1), (2 if Bo[0] else 0), (0 if Bo[0] else 2)
+    if g == "ring": return I[0] * I[1] + 1 + (1 if Bo[0] else 0), I[0] * I[1], 1, 1
+    if g == "flat_ring": return I[0] * I[1] + 2, I[0] * I[1], 1, 1
+    if g == "tetrahedron": return 4, 4, 2, 0
+    if g in ("hexahedron", "axis_aligned_cube", "hexahedron_4pts"):
+        tri = bool(Bo and Bo[0]) and not case.get("volume")
+        return 8, 12 if tri else 6, 2, 0
+    if g == "quad": return 4, 2 if Bo[0] else 1, 1, 1
+    if g == "triangle": return 3, 1, 1, 1
+    if g == "icosahedron": return 12, 20, 2, 0
+    if g == "octahedron": return 6, 8, 2, 0
+    if g == "dodecahedron": return 20, 12, 2, 0
+    if g == "icosphere": return 10 * 4 ** I[0] + 2, 20 * 4 ** I[0], 2, 0
+    if g == "sphere_fibonacci": return I[0], 2 * I[0] - 4, 2, 0
+    if g == "dual_mesh": return 2 * I[0] * I[1], I[0] * I[1], 0, 0
+    return None
+
+
+def oracle(case):
+    from ..gen.mesh import surface_stats
+    import numpy as np
+    g, I, Bo, geo = case["gen"], case["ints"], case["bools"], case["geo"]
+    out = []
+
+    def bad(sub, what, detail=""):
+        if g == "unit_triangle" and I[0] < I[1]:
+            sub = "nu<nv"      # one structural key for this region whatever symptom shows
+            what = "unit_triangle(nu, nv) with nu < nv is not a valid mesh (index arithmetic assumes full triangular rows)"
+        if not any(o["key"] == f"C14/{g}/{sub}" for o in out):
+            out.append({"key": f"C14/{g}/{sub}", "what": what, "detail": f"{detail} params ints={I} bools={Bo}"})
+    if g == "binding":
+        obs = impl_observe(case)
+        if obs != "colored->colored volume->volume":
+            bad("switches", "hexahedron_4pts does not forward its switches as named", obs)
+        return out
+    try:
+        m = _run(case)
+    except Exception as e:  # noqa
+        bad("raises", f"generator raised {type(e).__name__} on admissible parameters", str(e)[:200])
+        return out
+    kind = type(m).__name__
+    nV = len(m.vertices)
+    pts = np.array([[float(c) for c in v] for v in m.vertices]) if nV else np.zeros((0, 3))
+    if g == "chain_of_vertices":
+        E = sorted(tuple(int(x) for x in e) for e in m.edges)
+        want = sorted((i, i + 1) for i in range(I[0] - 1))
+        if Bo[0] and I[0] > 2: want = sorted(want + [(0, I[0] - 1)])
+        if Bo[0] and I[0] == 2: want = [(0, 1)]
+        if kind != "PolyLine" or nV != I[0] or E != want: bad("edges", "polyline does not link the vertices in order", f"{E}")
+        return out
+    exp = _expected(case)
+    vol = bool(case.get("volume"))
+    F = [[int(v) for v in f] for f in m.faces]
+    if vol:
+        if kind != "VolumeMesh" or len(m.cells) != 1:
+            bad("volume-switch", "volume=True does not return a volume mesh with one cell", kind)
+            return out
+        # faces of a volume mesh are not oriented as a surface; check unoriented closedness only
+        und = {}
+        for f in F:
+            for a, b in _sides(f): und.setdefault((min(a, b), max(a, b)), 0); und[(min(a, b), max(a, b))] += 1
+        if any(v != 2 for v in und.values()) or any(x < 0 or x >= nV for f in F for x in f):
+            bad("volume-faces", "boundary faces of the single cell are not a closed surface")
+        if exp and (nV != exp[0] or len(F) != (4 if g == "tetrahedron" else 6)): bad("counts", "element counts differ from the documentation", f"V={nV} F={len(F)}")
+    else:
+        if kind != "SurfaceMesh":
+            bad("class", f"returned a {kind}, a surface was promised")
+            return out
+        if any(x < 0 or x >= nV for f in F for x in f):
+            bad("index-range", "face index out of range"); return out
+        st = surface_stats(nV, F)
+        if st["unused"]: bad("unused-vertex", f"{st['unused']} vertices are used by no face")
+        if len({tuple(sorted(f)) for f in F}) != len(F): bad("repeated-face", "a face is repeated")
+        if not st["manifold"]: bad("manifold", "not a consistently oriented manifold")
+        if g in ("cylindrify_edges", "spherify_vertices"):
+            want_c = 2 if g == "cylindrify_edges" else 3
+            want_chi = 0 if g == "cylindrify_edges" else 6
+            if st["components"] != want_c or st["chi"] != want_chi: bad("topology", "merged shape has the wrong topology", str(st))
+            return out
+        if exp:
+            V_, F_, chi, loops = exp
+            if st["manifold"] and (st["chi"] != chi or st["loops"] != loops or st["components"] != 1):
+                bad("topology", "topology differs from the named shape", f"chi={st['chi']} loops={st['loops']} comps={st['components']} expected chi={chi} loops={loops}")
+            if (V_ is not None and nV != V_) or (F_ is not None and len(F) != F_):
+                bad("counts", "element counts differ from the documented functions of the parameters", f"V={nV} F={len(F)} expected V={V_} F={F_}")
+        tri_expected = {"unit_grid": Bo[0] if Bo else None, "torus": Bo[0] if Bo else None, "quad": Bo[0] if Bo else None,
+                        "hexahedron": Bo[0] if Bo else None, "axis_aligned_cube": Bo[0] if Bo else None}.get(g)
+        if tri_expected is not None and F:
+            if any(len(f) != (3 if tri_expected else 4) for f in F): bad("triangulate-switch", "triangulate switch not honoured")
+        if case.get("colored") and not m.faces.has_attribute("color"): bad("colored-switch", "colored switch not honoured")
+        if g == "unit_grid" and Bo[1]:
+            if not m.vertices.has_attribute("uv_coords"): bad("uv-switch", "generate_uvs not honoured")
+            else:
+                uv = m.vertices.get_attribute("uv_coords")
+                if any(abs(float(uv[i][0]) - pts[i][0]) > 1e-12 or abs(float(uv[i][1]) - pts[i][1]) > 1e-12 for i in range(nV)):
+                    bad("uv-values", "uv coordinates differ from the vertex positions")
+    # ---- geometry ------------------------------------------------------------------------------
+    tol = 1e-9
+    c, r = np.array(geo["center"], dtype=float), geo["radius"]
+    if g in ("sphere_uv", "icosphere") and nV:
+        d = np.linalg.norm(pts - c, axis=1)
+        if np.max(np.abs(d - r)) > tol * max(1, r): bad("on-sphere", "vertices are not at the radius from the centre", f"max dev {np.max(np.abs(d - r))}")
+    if g == "sphere_fibonacci" and nV:
+        d = np.linalg.norm(pts, axis=1)
+        if np.max(np.abs(d - r)) > tol * max(1, r): bad("on-sphere", "vertices are not at the radius from the origin")
+    if g == "icosahedron":
+        d = np.linalg.norm(pts - c, axis=1)
+        phi = (1 + math.sqrt(5)) / 2
+        if np.max(np.abs(d - r * math.sqrt(1 + phi * phi))) > tol * max(1, r): bad("on-sphere", "vertices are not equidistant from the centre at the scaled radius")
+    if g == "torus":
+        R = 4 * r
+        d = (np.sqrt(pts[:, 0] ** 2 + pts[:, 1] ** 2) - R) ** 2 + pts[:, 2] ** 2
+        if np.max(np.abs(np.sqrt(d) - r)) > tol * max(1, R): bad("on-torus", "vertices are not on the torus of the given radii")
+    if g == "cylinder":
+        p1 = np.array(geo["P"][0], dtype=float); ax = np.array([1., 2., 2.]) / 3.0
+        N = I[0]
+        side = pts[:2 * N]
+        rel = side - p1
+        t = rel @ ax
+        d = np.linalg.norm(rel - np.outer(t, ax), axis=1)
+        if np.max(np.abs(d - r)) > tol * max(1, r): bad("on-cylinder", "side vertices are not at the radius from the axis")
+        if np.max(np.abs(t[:N])) > tol * 10 or np.max(np.abs(t[N:] - 3.0)) > tol * 10: bad("on-cylinder", "rings are not in the end planes")
+    if g in ("unit_grid", "unit_triangle") and nV:
+        if pts.min() < -tol or pts.max() > 1 + tol or np.max(np.abs(pts[:, 2])) > 0: bad("in-unit-square", "vertices leave the unit square")
+        if g == "unit_grid":
+            for corner in ((0, 0), (1, 0), (0, 1), (1, 1)):
+                if not np.any(np.all(np.abs(pts[:, :2] - np.array(corner)) < tol, axis=1)): bad("corners", "a corner of the unit square is missing")
+    if g in ("tetrahedron", "hexahedron", "triangle"):
+        want = {"tetrahedron": _tet_pts(geo), "hexahedron": _hex_pts(geo), "triangle": geo["P"][:3]}[g]
+        if nV == len(want) and np.max(np.abs(pts - np.array(want, dtype=float))) > 0: bad("corners", "vertices are not the requested corners")
+    if g == "hexahedron_4pts" and nV == 8:
+        if np.max(np.abs(pts - np.array(_hex_pts(geo), dtype=float))) > 1e-12: bad("corners", "vertices are not the requested corners")
+    if g == "quad" and nV == 4:
+        P0, P1, P2 = (np.array(geo["P"][k], dtype=float) for k in range(3))
+        want = [P0, P1, P2 + P1 - P0, P2]
+        if np.max(np.abs(pts - np.array(want))) > 1e-12: bad("corners", "vertices are not the requested corners")
+    if g == "ring" and I[1] == 1 and nV >= I[0] + 1 and not out:
+        # apex defect = 2*pi - sum of the angles at vertex 0
+        tot = 0.0
+        for f in F:
+            a, b = pts[f[1]] - pts[f[0]], pts[f[2]] - pts[f[0]]
+            tot += math.atan2(np.linalg.norm(np.cross(a, b)), float(a @ b))
+        want = max(min(geo["defect"], 2 * math.pi - 0.01), 0.)
+        if abs((2 * math.pi - tot) - want) > 1e-4: bad("apex-defect", "apex angle defect differs from the request", f"{2 * math.pi - tot} vs {want}")
+    return out
+
+
+def nontrivial(case, obs):
+    return case["gen"] != "binding" and not str(obs).startswith("err")
+
+
+def classify(case, obs):
+    ks = ["gen:" + case["gen"]]
+    if case["gen"] in MODELLED and not case.get("volume"): ks.append("modelled")
+    if len(case["ints"]) == 2 and case["ints"][0] != case["ints"][1]: ks.append("unequal-resolutions")
+    if str(obs).startswith("err"): ks.append(str(obs))
+    return ks
+
+
+def describe(case):
+    return {k: case[k] for k in ("gen", "ints", "bools") if k in case}
+
+
+REQUIRED_THEOREMS = ["tetrahedron_closed_oriented", "icosahedron_closed_oriented", "hexahedron_quad_closed_oriented",
+                     "hexahedron_tri_closed_oriented", "hexahedron_tables_agree", "triangle_disk", "quad_disk", "switches_forwarded",
+                     "unit_grid_nverts", "unit_grid_nfaces", "unit_grid_inRange", "torus_nverts", "torus_nfaces", "torus_inRange",
+                     "sphere_uv_nverts", "sphere_uv_nfaces", "sphere_uv_inRange", "cylinder_nverts", "cylinder_nfaces",
+                     "cylinder_inRange", "ring_nverts", "ring_nfaces", "ring_inRange", "flat_ring_nverts", "flat_ring_nfaces",
+                     "flat_ring_inRange", "unit_triangle_nverts", "sphere_uv_on_sphere", "torus_on_torus",
+                     "projected_on_sphere", "fibonacci_unit", "linspace_in_unit", "linspace_ends"]
+TRUSTED = [
+    "Lean 4.33.0 kernel; axioms ⊆ {propext, Classical.choice, Quot.sound}",
+    "translator vlib/pyloops.py + vlib/props/c14.py (Python ast -> Lean terms for loop nests and literal tables); it is itself "
+    "validated on every run: the evaluated terms are compared with the face lists the implementation returns (order included)",
+    "Python ints modelled as Nat (truncated subtraction): exact on admissible parameters, where no subtraction underflows",
+    "geometry (radius/centre/unit square/corners/apex defect), generators built on subdivision, qhull or dual meshes, and "
+    "manifoldness/topology for the parametric families are checked by the oracle on a box of parameters, not proved",
+]
+ASSUMPTIONS = ["floating point trigonometry of the vertex positions is not modelled", "correspondence and oracle cover the parameter box of the tier only"]
+RULE = ("every generator × all integer resolutions in a box (quick 2..7, thorough 2..16, unequal resolutions included) × all boolean "
+        "switches × random centres/radii/corners; non-trivial = distinct parameter tuple for which the generator returned a mesh")
+MANIFEST = {
+    "level_text": ("Proof over translated source. The face-emitting loop nests and literal tables of mouette/procedural/{shapes,flat,rings}.py "
+                   "are re-extracted from the working tree on every run (Python ast -> functional Lean terms) and the theorems are "
+                   "re-checked against them: literal tables (tetrahedron, hexahedron x2, icosahedron, triangle, quad) are closed / consistently "
+                   "oriented / no unused vertex / no repeated face / chi by kernel evaluation; for ALL resolutions (equal or not) of unit_grid, "
+                   "torus, sphere_uv, cylinder, ring, flat_ring (and unit_triangle for nu>=nv): vertex and face counts equal the documented "
+                   "functions and every face index is in range; hexahedron_4pts forwards its switches by name. The translator is validated "
+                   "each run against the implementation's returned face lists; manifoldness/topology of the parametric families, geometry "
+                   "and the non-translated generators (icosphere, fibonacci, dual, octa/dodecahedron) are oracle-checked on a parameter box (partial)."),
+    "level_note": ("Trusted: Lean kernel + standard axioms; the ast translator (validated by exact face-list comparison on the box each run); "
+                   "Nat for Python ints on admissible parameters; float trigonometry not modelled. Open finding: unit_triangle(nu<nv)."),
+    "technique": "Lean 4 theorems over source-translated terms (decide on tables, induction/omega on loop nests) + translation validation + oracle",
+}
